@@ -439,7 +439,7 @@ StrVals(names) == [i \in 1..Len(names) |-> StrV(names[i])]
 ObjectFn(st, name, args) ==
     LET a1 == SeqGet(args, 1)
     IN  IF ~IsO(a1) /\ name # "O_create" THEN ThrowErr(st, S_TypeError)           \* 15.2.3.x step 1
-        ELSE IF IsO(a1) /\ st.H[a1.id].cls = "Arguments" THEN Und(st)
+        ELSE IF IsO(a1) /\ st.H[a1.id].cls = "Arguments" /\ name \notin {"O_defineProperty", "O_getOwnPropertyDescriptor"} THEN Und(st)
         ELSE CASE name = "O_getPrototypeOf" -> Ok(st, IF st.H[a1.id].proto = 0 THEN Null ELSE ObjV(st.H[a1.id].proto))
           [] name = "O_keys" -> MakeArray(st, StrVals(OM!OwnKeys(st.H, a1.id)))
           [] name = "O_getOwnPropertyNames" -> MakeArray(st, StrVals(OM!OwnNames(st.H, a1.id)))
@@ -458,14 +458,30 @@ ObjectFn(st, name, args) ==
                  IN  IF k.thr # "" THEN k
                      ELSE IF ~OM!HasOwn(k.st.H, a1.id, k.v.s) THEN Ok(k.st, Undef)
                      ELSE IF Unmodelled(k.st, a1.id, k.v.s) THEN Und(k.st)
-                     ELSE FromPropDesc(k.st, OM!OwnProp(k.st.H, a1.id, k.v.s)))
+                     ELSE LET pr == OM!OwnProp(k.st.H, a1.id, k.v.s)
+                              mp == MappedName(k.st, a1.id, k.v.s)         \* 10.6 [[GetOwnProperty]]: a mapped element shows the parameter's value
+                          IN  FromPropDesc(k.st, IF mp # <<>> /\ pr.k = "data" THEN [pr EXCEPT !.v = EnvGetBinding(k.st, k.st.H[a1.id].fn.env, mp)] ELSE pr))
           [] name = "O_defineProperty" ->
                 (LET k == ToStr(st, SeqGet(args, 2))
                  IN  IF k.thr # "" THEN k
                      ELSE LET d == ToPropDesc(k.st, SeqGet(args, 3))
                           IN  IF d.thr # "" THEN [st |-> d.st, v |-> d.v, thr |-> d.thr]
-                              ELSE LET r == OM!DefineOwn(d.st.H, a1.id, k.v.s, d.d)
-                                   IN  IF r.thr = "RangeError"
+                              ELSE LET mp == MappedName(d.st, a1.id, k.v.s)
+                                       \* a mapped arguments element holds the parameter's current value (10.6)
+                                       cur == OM!OwnProp(d.st.H, a1.id, k.v.s)
+                                       H0 == IF mp # <<>> /\ cur.k = "data"
+                                             THEN OM!SetProp(d.st.H, a1.id, k.v.s, [cur EXCEPT !.v = EnvGetBinding(d.st, d.st.H[a1.id].fn.env, mp)])
+                                             ELSE d.st.H
+                                       r == OM!DefineOwn(H0, a1.id, k.v.s, d.d)
+                                   IN  IF mp # <<>> /\ r.thr = "" /\ r.ok THEN
+                                           \* 10.6 [[DefineOwnProperty]] step 5: an accessor descriptor or writable: false ends the
+                                           \* mapping (the element keeps the value it has now); a value goes to the parameter
+                                           (LET unmap == d.d.hg \/ d.d.hs \/ (d.d.hw /\ ~d.d.w)
+                                                st1 == SetH(d.st, r.H)
+                                                st2 == IF d.d.hv /\ ~(d.d.hg \/ d.d.hs) THEN EnvSetBinding(st1, st1.H[a1.id].fn.env, mp, d.d.v) ELSE st1
+                                                st3 == IF unmap THEN [st2 EXCEPT !.H[a1.id].fn.map = [x \in (DOMAIN @) \ {k.v.s} |-> @[x]]] ELSE st2
+                                            IN  Ok(st3, a1))
+                                       ELSE IF r.thr = "RangeError"
                                        THEN (IF D("D19_array_length_rangeerror_no_message") THEN ThrowErrNoMsg(SetH(d.st, r.H), S_RangeError)
                                              ELSE ThrowErr(SetH(d.st, r.H), S_RangeError))
                                        ELSE IF r.thr # "" THEN Und(d.st)
